@@ -615,7 +615,7 @@ func reportViolation(c Check, sc *Scenario, v *Violation, hang bool, tier string
 		v = v2
 	}
 	fmt.Printf("violation in scenario %d (seed %d): %s\n", sc.Index, sc.Seed, v)
-	if v.Class != "data-race" && v.Class != "hang" {
+	if v.Class != "data-race" && v.Class != "hang" && id != "C18B" {
 		// does it show in a fresh process at all? if not, it may need what earlier scenarios of the
 		// same worker left behind in the process; the scenario is then minimised with that history
 		if v0, harness := execFresh(id, sc, execLimit(id)); harness == "" && (v0 == nil || v0.Class != v.Class) {
@@ -638,7 +638,12 @@ func reportViolation(c Check, sc *Scenario, v *Violation, hang bool, tier string
 		min = sc
 		if v3 == nil {
 			// not reproducible alone: does it need what earlier scenarios left behind in the process?
-			if h := withHistory(id, sc, v.Class); h != nil {
+			// (stage B of C18 is free-running: a result that does not recur there is retried, not explained)
+			if id == "C18B" {
+				for i := 0; i < 20 && v3 == nil; i++ {
+					v3, _ = execFresh(id, sc, execLimit(id))
+				}
+			} else if h := withHistory(id, sc, v.Class); h != nil {
 				min = h
 				v3, _ = execFresh(id, min, 10*time.Minute)
 				fmt.Printf("the violation needs process-lifetime state: it reproduces in a fresh process after %d earlier scenario(s) of the same worker\n", len(min.Prelude))
